@@ -36,7 +36,8 @@ class TLCResult:
         self.finished = "Model checking completed" in out or \
             "Finished computing initial states" in out and "Finished in" in out
         self.error = None
-        m = re.search(r"Error: (.*)", out)
+        # TLC's own error lines start a line; "TypeError: ..." inside a printed value is data
+        m = re.search(r"^Error: (.*)", out, re.M)
         if m and not (self.invariant_violated or self.action_violated
                       or self.temporal_violated or self.deadlock):
             self.error = out[m.start():m.start() + 2000]
@@ -72,7 +73,7 @@ class TLCResult:
         return vals
 
     def counterexample(self):
-        m = re.search(r"(Error: .*?)(?=\n\d+ states generated|\Z)", self.out, re.S)
+        m = re.search(r"(^Error: .*?)(?=\n\d+ states generated|\Z)", self.out, re.S | re.M)
         return m.group(1)[:20000] if m else ""
 
 
@@ -126,7 +127,7 @@ def run(wd, module, cfg=None, workers=None, timeout=600, simulate=None, depth=No
     """run TLC on <wd>/<module>.tla with <cfg> (file name inside wd)."""
     if workers is None:
         workers = min(16, os.cpu_count() or 1)
-    meta = os.path.join(wd, "meta")
+    meta = os.path.join(wd, f"meta-{os.getpid()}-{time.time_ns() % 10**9}")
     cmd = ["timeout", "-k", "5", str(int(timeout)),
            "java", f"-Xss{xss}", "-XX:+UseParallelGC"]
     if heap:
